@@ -119,7 +119,7 @@ def run(out):
                 'distinct by (table, use) resp. (syntax, form)')
     out.assumptions = ['the self-closing mark is compared through the printed markup (an element with content prints its closing tag)',
                        'built-in forms with modifiers are built textually only for definitions that are a single element']
-    allshapes = {"leaf", "attr", "cls", "impl", "text", "child", "siblings"}
+    allshapes = {"leaf", "attr", "cls", "impl", "implchild", "text", "child", "siblings"}
     insts = [('two-keys-all-uses', dict(constants={'Keys': {"k1", "k2"}, 'Plain': {"x"}, 'DefShapes': allshapes, 'UseIdx': set(range(1, 13)), 'Reverses': {False, True}})),
              ('three-keys', dict(constants={'Keys': {"k1", "k2", "k3"}, 'Plain': {"x"}, 'DefShapes': {"leaf", "child"} if quick else {"leaf", "child", "siblings"},
                                             'UseIdx': {1, 2, 8, 10} if quick else {1, 2, 5, 8, 10, 11}, 'Reverses': {False}}))]
